@@ -83,6 +83,7 @@ def main(argv):
     known_hit = []
     os.makedirs(os.path.join(ROOT, 'replay'), exist_ok=True)
     obmap = {o.oid: o for o in obs}
+    replays_done = {}
     for g in by[OB.FAILED]:
         if g['id'] in known_ids:
             known_hit.append(g)
@@ -92,7 +93,10 @@ def main(argv):
         replay_path = os.path.join(ROOT, 'replay', g['id'].replace('/', '_') + '.txt')
         reproduced, detail = None, 'no replay oracle for this obligation'
         o = obmap.get(oid)
-        if o is not None and o.replay is not None and g.get('model'):
+        replays_done[oid] = replays_done.get(oid, 0) + 1
+        if o is not None and o.replay is not None and g.get('model') and replays_done[oid] > 2:
+            detail = 'not replayed: two failures of the same obligation group %s were already replayed in this run' % oid
+        elif o is not None and o.replay is not None and g.get('model'):
             wd = native.workdir('replay')
             try:
                 reproduced, detail = o.replay(g['model'], wd)
